@@ -15,7 +15,7 @@ RULE = (
     "cases: (a) always-decodable synthetic registries (every value yields a whole-span hit with a new value, variants that "
     "also supply children) x k in -3..12: the recording wrapper counts search passes and the distance of every searched value; "
     "(b) documents (token soups, nested contexts, URLs whose query/path carry further indicators) and synthetic tables, "
-    "each scanned with k = -1..6: distance bound on every searched value + tree(k) embeds order-preservingly in tree(k+1). "
+    "each scanned with k = -1..6: distance bound on every searched value, every value closer than k was searched, tree(k) embeds order-preservingly in tree(k+1). "
     "Distance = number of decoded ancestors-or-self plus decoder-supplied-child steps. Non-trivial = tree(k) != tree(k+1) for "
     "some tested k (for (a): k >= 1); distinct by case hash."
 )
@@ -66,6 +66,20 @@ def check_bound(an: Analysis, k, o: Outcome):
             o.violate("searched-beyond-limit", {"k": k, "distance": d, "text": text[:60]})
     if k <= 0 and (an.rec.calls or an.root.children):
         o.violate("k<=0:not-bare-root", {"k": k, "calls": len(an.rec.calls), "children": len(an.root.children)})
+    # converse: every value fewer than k steps away was searched - the root, every decoded hit and every decoder-supplied
+    # node, unless it carries decoder-supplied children (the engine then descends into those instead). Undecoded contexts
+    # belong to their parent's pass. (What surrounds a value - how many contexts enclose it - does not count as a step.)
+    searched = {id(t) for t, _ in an.rec.calls}
+    for n in [an.root] + [n for n, _, _ in an.nodes]:
+        if any(id(c) in an.supplied_by for c in n.children):
+            continue
+        h = an.hit_by_id.get(id(n))
+        is_context = h is not None and id(n) not in an.supplied_by and not decoded_rec(h)
+        if n is not an.root and (is_context or (h is None and id(n) not in an.supplied_by)):
+            continue
+        if sd[id(n)] < k and id(n.value) not in searched:
+            o.violate("not-searched-within-limit", {"k": k, "distance": sd[id(n)], "type": n.type, "value": n.value[:60]})
+            break
     # structural form: a node that carries engine-attached children was searched, so its distance is < k
     for n in [an.root] + [n for n, _, _ in an.nodes]:
         if any(an.engine_attached(c) for c in n.children):
